@@ -489,10 +489,13 @@ Room(l, k, b) ==
 WithKinds == {"JSONMode", "ColorMode", "UTCMode", "TimeFormat", "Level", "Attrs", "Attrs1", "SetKV", "Attrs0", "AttrsN", "Skip", "CtxKeys", "Writer", "ErrorWriter"}
 
 Set(l, k, a, b) == "Set" \in Acts /\ <<a, b>> \in SetterArgs[k] /\ Room(l, k, b) /\ Do("Set", l, k, a, b)
-With(l, k, a, b) == "With" \in Acts /\ k \in WithKinds /\ st.n < MaxLoggers /\ <<a, b>> \in SetterArgs[k] /\ Do("With", l, k, a, b)
+\* (a lookup - New(existing name, ...), WithSkip(n) for an n that has its child - needs no room for a new logger:
+\*  it stays enabled when the bounded model is full)
+With(l, k, a, b) == "With" \in Acts /\ k \in WithKinds /\ (st.n < MaxLoggers \/ (k = "Skip" /\ KidNamed(st, l, SkipName(a)) # {}))
+                    /\ <<a, b>> \in SetterArgs[k] /\ Do("With", l, k, a, b)
 \* bare key, value arguments of New need a name in front of them: the first string argument IS the name
 HasKV(oi) == \E j \in DOMAIN OptLists[oi] : OptLists[oi][j].k = "KV"
-New(l, nm, oi) == "New" \in Acts /\ st.n < MaxLoggers /\ (nm = "" => ~HasKV(oi)) /\ Do("New", l, nm, oi, 0)
+New(l, nm, oi) == "New" \in Acts /\ (st.n < MaxLoggers \/ (nm # "" /\ KidNamed(st, l, nm) # {})) /\ (nm = "" => ~HasKV(oi)) /\ Do("New", l, nm, oi, 0)
 NewDetached(nm, oi) == "NewDetached" \in Acts /\ st.n < MaxLoggers /\ (nm = "" => ~HasKV(oi)) /\ Do("NewDetached", 0, nm, oi, 0)
 PkgSetLevel(v) == "PkgSetLevel" \in Acts /\ "Level" \in DOMAIN SetterArgs /\ <<v, 0>> \in SetterArgs["Level"] /\ Do("PkgSetLevel", 0, "", v, 0)
 SetDefault(l) == "SetDefault" \in Acts /\ Do("SetDefault", l, "", 0, 0)
